@@ -93,7 +93,7 @@ type ex4Rx struct {
 }
 
 func (r *ex4Rx) eligible(xid dhcpv4.TransactionID) bool {
-	return r.m != nil && r.m.OpCode == dhcpv4.OpcodeBootReply && bytes.Equal(r.m.ClientHWAddr, clientHW) && r.m.TransactionID == xid
+	return r.m != nil && r.m.OpCode == dhcpv4.OpcodeBootReply && bytes.Equal(r.m.ClientHWAddr, ex4ClientHW) && r.m.TransactionID == xid
 }
 
 type ex4Tx struct {
@@ -177,6 +177,7 @@ func ex4Scenario() *Scenario {
 func (st *ex4State) start() {
 	s, t := st.s, st.tape
 	st.raw = t.Coin(1, 2)
+	ex4ClientHW = drawClientHW(t)
 	st.T = pick(t, ms(50), ms(200))
 	st.tries = 1 + t.Weighted(2, 3, 2)
 	st.xid = xid4(0x77000000 | uint32(t.Choose(4)))
@@ -235,7 +236,7 @@ func (st *ex4State) start() {
 			copts = append(copts, nclient4.WithServerAddr(&net.UDPAddr{IP: net.IPv4(10, 0, 0, byte(1+t.Choose(3))), Port: 67}))
 			s.Probe("client-with-configured-server-address")
 		}
-		cl, err := nclient4.NewWithConn(cc, clientHW, copts...)
+		cl, err := nclient4.NewWithConn(cc, ex4ClientHW, copts...)
 		s.LeaveSUT()
 		if err != nil {
 			st.newErr = err
@@ -276,6 +277,22 @@ func (st *ex4State) start() {
 		sj.Wait()
 		st.net.Stop(true)
 	})
+}
+
+// ex4ClientHW is the hardware address of the client of the current run (drawn per run:
+// mostly an Ethernet MAC, sometimes 8 or 16 bytes - EUI-64, InfiniBand-style - or 3).
+var ex4ClientHW = clientHW
+
+func drawClientHW(t *simrt.Tape) net.HardwareAddr {
+	switch t.Weighted(6, 1, 1, 1) {
+	case 1:
+		return net.HardwareAddr{0x02, 0x00, 0x00, 0xff, 0xfe, 0xaa, 0xbb, 0x01}
+	case 2:
+		return net.HardwareAddr{0x02, 0, 0, 0xaa, 0xbb, 0x01, 7, 8, 9, 10, 11, 12, 13, 14, 15, 16}
+	case 3:
+		return net.HardwareAddr{0x02, 0xaa, 0x01}
+	}
+	return clientHW
 }
 
 func (st *ex4State) mods() []dhcpv4.Modifier {
@@ -476,7 +493,7 @@ func (st *ex4State) handler(sv *ex4Server) server4.Handler {
 			}
 			mods := []dhcpv4.Modifier{dhcpv4.WithMessageType(typ),
 				dhcpv4.WithYourIP([]net.IP{net.IPv4(192, 168, byte(sv.id), byte(10+t.Choose(4))), net.IPv4(192, 168, byte(sv.id), 10), net.IPv4zero, net.IPv4bcast, net.IPv4(192, 168, byte(sv.id), 255)}[t.Weighted(8, 4, 1, 1, 1)]),
-				dhcpv4.WithOption(dhcpv4.OptIPAddressLeaseTime(time.Duration(60+t.Choose(3)) * time.Second))}
+				dhcpv4.WithOption(dhcpv4.OptIPAddressLeaseTime([]time.Duration{60 * time.Second, 61 * time.Second, 62 * time.Second, time.Second, 0, 0xffffffff * time.Second}[t.Weighted(3, 2, 2, 2, 1, 1)]))} // also: one second (expired before a renewal), zero, infinite
 			switch t.Weighted(8, 1, 2, 1) {
 			case 3:
 				// a server identifier option of unusual length
@@ -527,6 +544,9 @@ func (st *ex4State) handler(sv *ex4Server) server4.Handler {
 			if err != nil {
 				continue
 			}
+			// the scripted server answers the client it knows, whatever the library's reply
+			// builder makes of the request's hardware address field
+			rep.ClientHWAddr = append(net.HardwareAddr(nil), ex4ClientHW...)
 			switch t.Weighted(10, 1, 1, 1) {
 			case 1:
 				rep.TransactionID[3] ^= 0x40
@@ -538,7 +558,7 @@ func (st *ex4State) handler(sv *ex4Server) server4.Handler {
 				case 2:
 					rep.ClientHWAddr = net.HardwareAddr{} // hlen 0
 				case 3:
-					rep.ClientHWAddr = append(append(net.HardwareAddr{}, clientHW...), 0, 0)
+					rep.ClientHWAddr = append(append(net.HardwareAddr{}, ex4ClientHW...), 0, 0)
 				}
 				s.Fault("reply-wrong-hw")
 			case 3:
@@ -626,8 +646,8 @@ func (st *ex4State) checkRequestPhase(v *vio, o *ex4Op, offer *dhcpv4.DHCPv4, re
 			continue
 		}
 		p := tx.p
-		if p.op != 1 || !bytes.Equal(p.chaddr, clientHW) {
-			v.add("X-req-hw", "%s: REQUEST %d has op=%d chaddr=%x, want BOOTREQUEST from %x", name, i+1, p.op, p.chaddr, []byte(clientHW))
+		if p.op != 1 || !bytes.Equal(p.chaddr, ex4ClientHW) {
+			v.add("X-req-hw", "%s: REQUEST %d has op=%d chaddr=%x, want BOOTREQUEST from %x", name, i+1, p.op, p.chaddr, []byte(ex4ClientHW))
 		}
 		if p.xid != wantXid {
 			v.add("X-req-xid", "%s: REQUEST %d has xid %08x, want the offer's %08x", name, i+1, p.xid, wantXid)
@@ -685,7 +705,7 @@ func (st *ex4State) checkCompletion(v *vio, o *ex4Op, name string, got *dhcpv4.D
 	if got.MessageType() != want {
 		v.add("X-result-type", "%s: completed by a %s, want %s", name, got.MessageType(), want)
 	}
-	if got.OpCode != dhcpv4.OpcodeBootReply || !bytes.Equal(got.ClientHWAddr, clientHW) || got.TransactionID != xid {
+	if got.OpCode != dhcpv4.OpcodeBootReply || !bytes.Equal(got.ClientHWAddr, ex4ClientHW) || got.TransactionID != xid {
 		v.add("X-result-foreign", "%s: completed by a message that is not a BOOTREPLY for this client and transaction (op=%v hw=%v xid=%s)", name, got.OpCode, got.ClientHWAddr, got.TransactionID)
 	}
 	if !got.ServerIdentifier().Equal(sid) {
@@ -748,7 +768,7 @@ func (st *ex4State) oracle(v *vio) {
 		switch o.kind {
 		case "discover", "request":
 			for j, tx := range disc {
-				if tx.ok && (tx.p.op != 1 || !bytes.Equal(tx.p.chaddr, clientHW)) {
+				if tx.ok && (tx.p.op != 1 || !bytes.Equal(tx.p.chaddr, ex4ClientHW)) {
 					v.add("X-disc-hw", "%s: DISCOVER %d has op=%d chaddr=%x", name, j+1, tx.p.op, tx.p.chaddr)
 				}
 			}
@@ -829,7 +849,7 @@ func (st *ex4State) checkOffer(v *vio, o *ex4Op, name string, offer *dhcpv4.DHCP
 	if len(disc) > 0 {
 		want = xid4(disc[0].p.xid)
 	}
-	if offer.MessageType() != dhcpv4.MessageTypeOffer || offer.OpCode != dhcpv4.OpcodeBootReply || !bytes.Equal(offer.ClientHWAddr, clientHW) || offer.TransactionID != want {
+	if offer.MessageType() != dhcpv4.MessageTypeOffer || offer.OpCode != dhcpv4.OpcodeBootReply || !bytes.Equal(offer.ClientHWAddr, ex4ClientHW) || offer.TransactionID != want {
 		v.add("X-offer-foreign", "%s: returned a %s (op=%v hw=%v xid=%s) as the offer", name, offer.MessageType(), offer.OpCode, offer.ClientHWAddr, offer.TransactionID)
 	}
 	if len(disc) > 0 && st.findSource(offer, o.invSeq, before) == nil {
@@ -850,7 +870,7 @@ func (st *ex4State) checkRenew(v *vio, o *ex4Op, name string, req []*ex4Tx, extr
 			continue
 		}
 		p := tx.p
-		if p.op != 1 || !bytes.Equal(p.chaddr, clientHW) {
+		if p.op != 1 || !bytes.Equal(p.chaddr, ex4ClientHW) {
 			v.add("X-renew-hw", "%s: renewal REQUEST %d has op=%d chaddr=%x", name, i+1, p.op, p.chaddr)
 		}
 		if !ip4eq(p.ciaddr, in.ACK.YourIPAddr) {
@@ -907,7 +927,7 @@ func (st *ex4State) checkRelease(v *vio, o *ex4Op, name string) {
 	if !ip4eq(p.ciaddr, in.ACK.YourIPAddr) {
 		v.add("X-release-ciaddr", "%s: RELEASE has ciaddr %v, want the leased address %v", name, net.IP(p.ciaddr[:]), in.ACK.YourIPAddr)
 	}
-	if !bytes.Equal(p.chaddr, clientHW) {
+	if !bytes.Equal(p.chaddr, ex4ClientHW) {
 		v.add("X-release-hw", "%s: RELEASE has chaddr %x", name, p.chaddr)
 	}
 	sid := in.ACK.Options.Get(dhcpv4.OptionServerIdentifier)
